@@ -278,8 +278,22 @@ def h_recover(h: H):
             e = cur.get("elem")
             if e is not None:
                 g["w_seen"] = z3.Or(g["w_seen"], e == wpath)
+        ok_m, bm = env.lookup("best_mtime")
+        mtw = z3.Select(st.mt, wpath)
+
+        def tie(bnone, bv, bn):
+            """the remembered mtime is the best candidate's own, and a seen same-version witness is not newer than it"""
+            if not isinstance(bm, SXReal):
+                return [("RECOVER-TIE:inv:the-candidate's-modification-time-is-remembered", z3.BoolVal(False) if bnone is None else bnone)]
+            mt_best = z3.Select(st.mt, z3.Concat(z3.StringVal("metadata/"), bn.z))
+            present = z3.BoolVal(True) if bnone is None else z3.Not(bnone)
+            return [("RECOVER-TIE:inv:the-candidate's-modification-time-is-remembered",
+                     z3.Implies(present, z3.And(z3.Not(bm.nan), bm.inf == 0, bm.r == mt_best))),
+                    ("RECOVER-TIE:inv:a-seen-file-of-the-same-version-is-not-newer-than-the-candidate",
+                     z3.Implies(z3.And(present, g["w_seen"], pyops.int_z(bv) == wver), mtw <= mt_best))]
         if isinstance(b, SOpt):
             bv, bn = b.val
+            res += tie(b.isnone, bv, bn)
             res.append(("RECOVER:inv:witness-dominated",
                         z3.Implies(g["w_seen"], z3.And(z3.Not(b.isnone), pyops.int_z(bv) >= wver))))
             res.append(("RECOVER:inv:best-is-a-listed-metadata-file",
@@ -290,6 +304,7 @@ def h_recover(h: H):
             res.append(("RECOVER:inv:witness-dominated", z3.Not(g["w_seen"])))
         else:
             bv, bn = b
+            res += tie(None, bv, bn)
             res.append(("RECOVER:inv:witness-dominated", z3.Implies(g["w_seen"], pyops.int_z(bv) >= wver)))
             res.append(("RECOVER:inv:best-is-a-listed-metadata-file",
                         z3.And(z3.InRe(bn.z, cre.match_language()),
@@ -334,6 +349,9 @@ def h_recover(h: H):
         bv, bn = val.val
         h.ensure("RECOVER:None-only-if-no-metadata-file", z3.Implies(val.isnone, z3.Not(listed_w)))
         h.ensure("RECOVER:result-has-the-highest-version", z3.Implies(z3.And(z3.Not(val.isnone), listed_w), pyops.int_z(bv) >= wver))
+        h.ensure("RECOVER-TIE:among-the-files-of-the-highest-version-the-most-recently-modified-is-returned",
+                 z3.Implies(z3.And(z3.Not(val.isnone), listed_w, pyops.int_z(bv) == wver),
+                            z3.Select(st.mt, wpath) <= z3.Select(st.mt, z3.Concat(z3.StringVal("metadata/"), bn.z))))
         # RECOVER-COMMITTED: the recovered version was committed (its pointer flip happened)
         h.assume(z3.Not(val.isnone))
         h.ensure("RECOVER-COMMITTED:recovered-version-was-committed", committed(bn.z),
